@@ -286,7 +286,12 @@ def rand_herm(
         out = _data.diag[_data.CSR](eigenvalues, 0)
         nvals = max([N**2 * density, 1])
         out = _rand_jacobi_rotation(out, generator)
-        while _data.csr.nnz(out) < 0.95 * nvals:
+        # A degenerate spectrum cannot always be filled to the requested
+        # density (a multiple of the identity stays diagonal under every
+        # rotation): give up after a generous number of rotations.
+        for _ in range(10 * N**2 + 100):
+            if _data.csr.nnz(out) >= 0.95 * nvals:
+                break
             out = _rand_jacobi_rotation(out, generator)
         out = Qobj(out, dims=dims, isherm=True, copy=False)
         dtype = dtype or settings.core["default_dtype"] or _data.CSR
@@ -604,7 +609,10 @@ default: "ginibre"
         H = _data.diag(eigenvalues, 0)
         nvals = N**2 * density
         H = _rand_jacobi_rotation(H, generator)
-        while _data.csr.nnz(H) < 0.95*nvals:
+        # See `rand_herm`: degenerate eigenvalues may never fill up.
+        for _ in range(10 * N**2 + 100):
+            if _data.csr.nnz(H) >= 0.95*nvals:
+                break
             H = _rand_jacobi_rotation(H, generator)
     elif distribution == "ginibre":
         H = _rand_dm_ginibre(N, rank, generator)
